@@ -1,9 +1,13 @@
 """A small Application used by the C05 check: run as
     python c05_app.py PROBLEM OUT.json [application options...]
-PROBLEM in {free, wall, periodic, two}[-real]: 'exact' problems use a probe
+PROBLEM in {free, wall, periodic, two}[-real] or approach: 'exact' problems use a probe
 kernel and integer/dyadic data so that every floating point operation is
 exact (all configurations must agree bit for bit); '-real' problems use the
 CubicSpline kernel and a WCSPH-like set of equations.
+'approach' has two arrays with per-particle smoothing lengths that start out
+of each other's reach and meet during the run, a predictor-corrector
+integrator whose first predictor uses the initial acceleration evaluation, and
+prescribed velocities (exact for any number of steps).
 The final (and per-step) state of every particle, matched by identity, is
 written as hexadecimal floats.
 """
@@ -16,7 +20,7 @@ from pysph.base.kernels import CubicSpline
 from pysph.base.utils import get_particle_array
 from pysph.base.nnps import DomainManager
 from pysph.sph.equation import Equation, Group
-from pysph.sph.integrator import EulerIntegrator
+from pysph.sph.integrator import EulerIntegrator, PECIntegrator
 from pysph.sph.integrator_step import IntegratorStep
 from pysph.solver.application import Application
 from pysph.solver.solver import Solver
@@ -91,6 +95,28 @@ class Step(IntegratorStep):
         d_y[d_idx] += dt*d_v[d_idx]
 
 
+class CountForce(Equation):
+    def loop(self, d_idx, s_idx, d_au, s_m, DWIJ):
+        d_au[d_idx] += s_m[s_idx]*DWIJ[0]
+
+
+class Drift(IntegratorStep):
+    """Prescribed motion; s1 accumulates what the evaluation *before* the
+    predictor left behind (at the first step: the initial acceleration
+    evaluation), s2 what the evaluation of this step gives."""
+
+    def initialize(self, d_idx, d_x, d_x0):
+        d_x0[d_idx] = d_x[d_idx]
+
+    def stage1(self, d_idx, d_x, d_x0, d_u, d_rho, d_au, d_s1, dt):
+        d_s1[d_idx] += d_rho[d_idx] + d_au[d_idx]
+        d_x[d_idx] = d_x0[d_idx] + 0.5*dt*d_u[d_idx]
+
+    def stage2(self, d_idx, d_x, d_x0, d_u, d_rho, d_au, d_s2, dt):
+        d_s2[d_idx] += d_rho[d_idx] + d_au[d_idx]
+        d_x[d_idx] = d_x0[d_idx] + dt*d_u[d_idx]
+
+
 class Still(IntegratorStep):
     def stage1(self):
         pass
@@ -109,9 +135,31 @@ class App(Application):
                                  periodic_in_x=True, periodic_in_y=True)
         return None
 
+    def create_approach(self):
+        arrays = []
+        gid0 = 0
+        for name, nx, x0, u in (('fluid', 6, 1.0, 2.0), ('body', 4, 7.5, 0.0)):
+            xs, ys = np.mgrid[0:nx, 0:8]
+            k = np.arange(xs.size)
+            x = x0 + 0.75*xs.ravel() + ((k * 7) % 5 - 2) * 0.0625
+            y = 1.0 + 0.75*ys.ravel() + ((k * 3) % 7 - 3) * 0.0625
+            h = 0.5 + 0.25*((k * 5 + k // 3) % 3)
+            pa = get_particle_array(name=name, x=x, y=y, m=1.0 + (k % 3),
+                                    h=h, u=np.ones(k.size) * u,
+                                    rho=np.zeros(k.size))
+            for p in ('au', 'av', 'x0', 's1', 's2'):
+                pa.add_property(p)
+            pa.add_property('ident', type='long', data=gid0 + k)
+            pa.gid[:] = gid0 + k
+            gid0 += 1000
+            arrays.append(pa)
+        return arrays
+
     def create_particles(self):
         real = self.problem.endswith('-real')
         base = self.problem.split('-')[0]
+        if base == 'approach':
+            return self.create_approach()
         n = 8
         xs, ys = np.mgrid[0:n, 0:n]
         x = xs.ravel().astype(float) + 0.5
@@ -160,6 +208,8 @@ class App(Application):
 
     def array_names(self):
         base = self.problem.split('-')[0]
+        if base == 'approach':
+            return ['fluid', 'body']
         names = ['fluid', 'fluid2'] if base == 'two' else ['fluid']
         if base == 'wall':
             names.append('wall')
@@ -170,6 +220,9 @@ class App(Application):
         names = self.array_names()
         fluids = [n for n in names if n != 'wall']
         D, F = (RealDensity, RealForce) if real else (ExactDensity, ExactForce)
+        if self.problem == 'approach':
+            F = CountForce
+            fluids = names
         return [
             Group(equations=[D(dest=f, sources=names) for f in fluids] +
                   ([D(dest='wall', sources=names)] if 'wall' in names else [])),
@@ -181,9 +234,15 @@ class App(Application):
         kernel = CubicSpline(dim=2) if real else BoxKernel(dim=2)
         steppers = {n: (Still() if n == 'wall' else Step())
                     for n in self.array_names()}
-        integrator = EulerIntegrator(**steppers)
+        tf = 0.625 if real else 0.5
+        if self.problem == 'approach':
+            steppers = {n: Drift() for n in self.array_names()}
+            integrator = PECIntegrator(**steppers)
+            tf = 1.25
+        else:
+            integrator = EulerIntegrator(**steppers)
         solver = Solver(kernel=kernel, dim=2, integrator=integrator,
-                        dt=0.125, tf=(0.625 if real else 0.5), pfreq=1000)
+                        dt=0.125, tf=tf, pfreq=1000)
         solver.set_disable_output(True)
         return solver
 
@@ -195,12 +254,14 @@ class App(Application):
         for pa in self.particles:
             n = pa.num_real_particles
             ident = pa.get('ident', only_real_particles=False)[:n]
+            names = ('x', 'y', 'u', 'v', 'rho')
+            if 's1' in pa.properties:
+                names += ('s1', 's2')
             cols = {p: pa.get(p, only_real_particles=False)[:n]
-                    for p in ('x', 'y', 'u', 'v', 'rho')}
+                    for p in names}
             for r in range(n):
                 rows.append([int(ident[r])] +
-                            [float(cols[p][r]).hex() for p in
-                             ('x', 'y', 'u', 'v', 'rho')])
+                            [float(cols[p][r]).hex() for p in names])
         rows.sort()
         return rows
 
